@@ -54,7 +54,7 @@ OBJ_GROUPS = [("At", 3, 4, True), ("Set", 3, 4, True), ("Meta", 3, 4, False), ("
               ("Slice", 3, 4, False), ("Permute", 3, 4, False), ("Norm", 3, 4, False), ("Errors", 1, 1, False), ("New", 3, 4, False)]
 # CMat.tla groups
 C_GROUPS = [("At", 3, 4, True), ("Chain", 3, 3, False), ("Conj", 3, 4, False), ("Copy", 3, 4, False),
-            ("Shape", 3, 4, False), ("Equal", 2, 3, False)]
+            ("Shape", 3, 4, False), ("Equal", 2, 3, False), ("View", 3, 4, False)]
 FMT_SHARDS = 4
 # calls with mismatched operand shapes (a shape panic is demanded; Equal answers false)
 MISMATCH = ["Add", "Sub", "MulElem", "Equal", "EqualApprox", "Mul", "Stack", "Augment", "MulVec", "AddVec", "SubVec", "MulElemVec",
